@@ -86,7 +86,7 @@ struct Shared {
     /// server session of the k-th connector invocation (None until authenticated)
     servers: Vec<Option<Arc<Session>>>,
     /// gates of dials that are still waiting (FIFO)
-    gates: VecDeque<oneshot::Sender<()>>,
+    gates: VecDeque<(usize, oneshot::Sender<()>)>,
     /// the next dial has to wait at a gate
     gated: bool,
     dials: usize,
@@ -105,7 +105,7 @@ fn make_connector(shared: Arc<Mutex<Shared>>) -> anytls_rs::client::VerifConnect
             sh.servers.push(None);
             let gate = if sh.gated {
                 let (tx, rx) = oneshot::channel();
-                sh.gates.push_back(tx);
+                sh.gates.push_back((idx, tx));
                 Some(rx)
             } else {
                 None
@@ -174,6 +174,8 @@ struct PoolRun {
     sessions: Vec<Arc<Session>>,
     streams: Vec<(usize, Arc<Stream>)>,
     waiting: VecDeque<tokio::task::JoinHandle<ReqResult>>,
+    /// connector invocation (= in-process server) behind each client session
+    srv_of: Vec<usize>,
 }
 
 impl PoolRun {
@@ -187,10 +189,13 @@ impl PoolRun {
         (self.sessions.len() - 1, true)
     }
 
-    fn take(&mut self, r: Result<ReqResult, tokio::task::JoinError>) -> String {
+    fn take(&mut self, r: Result<ReqResult, tokio::task::JoinError>, srv: usize) -> String {
         match r {
             Ok(Ok((stream, session))) => {
                 let (k, new) = self.index_of(&session);
+                if new {
+                    self.srv_of.push(srv);
+                }
                 self.streams.push((k, stream));
                 format!("{}{}", if new { "n" } else { "u" }, k)
             }
@@ -242,13 +247,18 @@ fn pool(args: &[&str]) -> String {
             sessions: Vec::new(),
             streams: Vec::new(),
             waiting: VecDeque::new(),
+            srv_of: Vec::new(),
         };
         let mut out = Vec::new();
         for (at, op, n) in ops {
             tokio::time::sleep_until(start + ms(at)).await;
             let res = match op {
                 'r' | 'a' => {
-                    shared.lock().unwrap().gated = op == 'a';
+                    let srv = {
+                        let mut sh = shared.lock().unwrap();
+                        sh.gated = op == 'a';
+                        sh.dials
+                    };
                     let c = run.client.clone();
                     let h = tokio::spawn(async move {
                         c.create_proxy_stream(("192.0.2.1".to_string(), 80)).await
@@ -256,7 +266,7 @@ fn pool(args: &[&str]) -> String {
                     settle().await;
                     if h.is_finished() {
                         let r = h.await;
-                        run.take(r)
+                        run.take(r, srv)
                     } else if op == 'a' {
                         run.waiting.push_back(h);
                         "p".to_string()
@@ -268,12 +278,12 @@ fn pool(args: &[&str]) -> String {
                 'c' => {
                     let g = shared.lock().unwrap().gates.pop_front();
                     match (g, run.waiting.pop_front()) {
-                        (Some(g), Some(h)) => {
+                        (Some((srv, g)), Some(h)) => {
                             let _ = g.send(());
                             settle().await;
                             if h.is_finished() {
                                 let r = h.await;
-                                run.take(r)
+                                run.take(r, srv)
                             } else {
                                 h.abort();
                                 "stuck".to_string()
@@ -293,7 +303,10 @@ fn pool(args: &[&str]) -> String {
                     "-".to_string()
                 }
                 'x' => {
-                    let s = shared.lock().unwrap().servers.get(n as usize).cloned().flatten();
+                    let s = match run.srv_of.get(n as usize) {
+                        Some(k) => shared.lock().unwrap().servers.get(*k).cloned().flatten(),
+                        None => None,
+                    };
                     if let Some(s) = s {
                         let _ = s.close().await;
                     }
@@ -677,6 +690,7 @@ fn poolreal(args: &[&str]) -> String {
             sessions: Vec::new(),
             streams: Vec::new(),
             waiting: VecDeque::new(),
+            srv_of: Vec::new(),
         };
         let mut out = Vec::new();
         for (at, op, n) in ops {
@@ -690,7 +704,7 @@ fn poolreal(args: &[&str]) -> String {
                     )
                     .await;
                     match r {
-                        Ok(r) => run.take(Ok(r)),
+                        Ok(r) => run.take(Ok(r), 0),
                         Err(_) => "stuck".to_string(),
                     }
                 }
@@ -702,7 +716,7 @@ fn poolreal(args: &[&str]) -> String {
                 }
                 _ => "-".to_string(),
             };
-            tokio::time::sleep(ms(30)).await;
+            tokio::time::sleep(ms(if op == 't' { 200 } else { 30 })).await;
             let snap = run.snapshot().await;
             out.push(format!("{}/{}", res, snap));
         }
